@@ -1,6 +1,7 @@
 #!/bin/bash
 # run_seeds.sh [ID...] : apply each seeded change to /repo, run the check(s) of its property, revert
 cd /verif
+rm -rf /tmp/evidence_backup && cp -r evidence /tmp/evidence_backup   # seeded runs must not overwrite the committed evidence
 for d in ${@:-$(ls seeded)}; do
   P=$(python3 -c "import json;print(json.load(open('seeded/$d/meta.json'))['property'])")
   git -C /repo apply /verif/seeded/$d/patch.diff 2>/dev/null || { echo "$d: PATCH DOES NOT APPLY"; continue; }
@@ -9,3 +10,4 @@ for d in ${@:-$(ls seeded)}; do
   echo "$d (property $P): exit=$RC  $(echo "$OUT" | grep -c '^VIOLATION') violation line(s); $(echo "$OUT" | tail -1 | cut -c1-120)"
   echo "$OUT" | grep '^VIOLATION\|^UNDECIDED' | head -3 | cut -c1-200
 done
+rm -rf evidence && cp -r /tmp/evidence_backup evidence
